@@ -549,17 +549,18 @@ class MetaMessage(BaseMessage):
     def from_bytes(cls, msg_bytes):
         if msg_bytes[0] != 0xff:
             raise ValueError('bytes does not correspond to a MetaMessage.')
+        # The length is a variable length quantity which ends with the
+        # first byte that has its high bit clear.
         scan_end = 2
-        data = []
-        flag = True
-        while flag and scan_end < len(msg_bytes):
+        while True:
+            if scan_end >= len(msg_bytes):
+                raise ValueError('Bad data. Cannot be converted to message.')
             scan_end += 1
-            length_data = msg_bytes[2:scan_end]
-            length = decode_variable_int(length_data)
-            data = msg_bytes[scan_end:]
-            if length == len(data):
-                flag = False
-        if flag:
+            if msg_bytes[scan_end - 1] < 0x80:
+                break
+        length = decode_variable_int(list(msg_bytes[2:scan_end]))
+        data = list(msg_bytes[scan_end:])
+        if length != len(data):
             raise ValueError('Bad data. Cannot be converted to message.')
         msg = build_meta_message(msg_bytes[1], data)
         return msg
